@@ -23,7 +23,7 @@ WIRING = {
 
 
 class Escapes:
-    def __init__(self, repo, dead=(), opaque=(), follow_wiring=True, asserts=True):
+    def __init__(self, repo, dead=(), opaque=(), follow_wiring=True, asserts=False):
         self.repo = repo
         self.dead = set(id(n) for n in dead)
         self.opaque = set(opaque)  # function short names not to descend into
